@@ -117,6 +117,22 @@ fn metamorphic(c: &mut Cmp, s: &SlicedPacket, l: &LaxSlicedPacket) {
     }
     c.eq("strict-vs-lax", "transport", format!("{:?}", l.transport), format!("{:?}", s.transport));
     c.eq("strict-vs-lax", "stop_err", format!("{:?}", l.stop_err), "None".to_string());
+    // the derived views of both results: same ether payload (type and bytes), same VLAN headers and
+    // ids. The length source label follows the one-directional rule used everywhere (C07's wording):
+    // lax may name what strict names or fall back to `Slice` - on the unchanged tree it does so for
+    // [MACsec(short length), VLAN, MACsec] stackings, where strict scans all extensions and lax asks
+    // the innermost one only.
+    match (s.ether_payload(), l.ether_payload()) {
+        (None, None) => {}
+        (Some(p), Some(q)) => {
+            c.eq("strict-vs-lax", "ether_payload()", (q.ether_type, q.payload.as_ptr(), q.payload.len()), (p.ether_type, p.payload.as_ptr(), p.payload.len()));
+            c.eq("strict-vs-lax", "ether_payload().len_source", q.len_source == p.len_source || q.len_source == LenSource::Slice, true);
+            c.eq("strict-vs-lax", "ether_payload().incomplete", q.incomplete, false);
+        }
+        (a, b2) => c.fail("strict-vs-lax", "ether_payload()", format!("strict {} / lax {}", if a.is_some() { "Some" } else { "None" }, if b2.is_some() { "Some" } else { "None" })),
+    }
+    c.eq("strict-vs-lax", "vlan()", format!("{:?}", l.vlan()), format!("{:?}", s.vlan()));
+    c.eq("strict-vs-lax", "vlan_ids()", format!("{:?}", l.vlan_ids()), format!("{:?}", s.vlan_ids()));
 }
 
 pub fn check(start: Start, b: &[u8], ctx: &mut Ctx) -> Result<(), Failure> {
